@@ -75,7 +75,7 @@ P(G, n) == G.nodes[n]
 \* f2c[f] = the cells of face f (FaceCells, computed once per grid)
 WellFormedF(G, f2c) ==
   /\ G.dim \in 1..3
-  /\ \A n \in 1..NNodes(G) : Len(G.nodes[n]) = 3 /\ \A k \in 1..3 : G.nodes[n][k] \in -64..64
+  /\ \A n \in 1..NNodes(G) : Len(G.nodes[n]) = 3 /\ \A k \in 1..3 : G.nodes[n][k] \in -512..512
   /\ \A f \in 1..NFaces(G) : /\ \A i \in 1..Len(G.fn[f]) : G.fn[f][i] \in 1..NNodes(G)
                              /\ Len(G.fn[f]) = (IF G.dim = 1 THEN 1 ELSE IF G.dim = 2 THEN 2 ELSE Len(G.fn[f]))
                              /\ G.dim = 3 => Len(G.fn[f]) >= 3
